@@ -57,7 +57,8 @@ def truth(state, v):
         if v.sort() == StrSort:
             return v != lit("")
         if v.sort() == ValSort:
-            raise OutOfSubset("truthiness of an opaque data value")
+            from .values import val_truthy
+            return z3.And(z3.Not(val_null(v)), val_truthy(v))
     if isinstance(v, Rope):
         if any(isinstance(p, str) and p for p in v.pieces) or any(isinstance(p, (Chr, Dec, Fmt, Tok)) for p in v.pieces):
             return True
